@@ -248,12 +248,53 @@ def _jsonable(x):
     return repr(x)
 
 
+RELOAD_ORDER = ("cutplace._tools", "cutplace.ranges", "cutplace.data", "cutplace.fields", "cutplace.checks",
+                "cutplace.rowio", "cutplace.interface", "cutplace.validio", "cutplace.sql")
+
+
+def _with_fresh_modules(fn):
+    """Wrap a harness so that every path starts from freshly loaded cutplace modules (fallback used when the code
+    under test keeps state across calls at module / class level, which CrossHair reports as NotDeterministic)."""
+    import functools
+    import importlib
+
+    @functools.wraps(fn)
+    def wrapper(*a, **k):
+        ch = _ch()
+        ctx = ch.NoTracing() if not _native[0] else None
+        if ctx is not None:
+            with ctx:
+                for name in RELOAD_ORDER:
+                    if name in sys.modules:
+                        importlib.reload(sys.modules[name])
+        return fn(*a, **k)
+
+    return wrapper
+
+
 def _execute(q):
     """Runs in the forked child: symbolic exploration, then native cross-check / replay."""
     t0 = time.time()
     fn = q.make("sym")
-    r = decide(fn, budget_s=q.budget_s, per_path_timeout=q.per_path_timeout, collect_witnesses=q.witnesses,
-               keep_going=q.keep_going, max_cex=q.max_cex)
+    reloaded = False
+    try:
+        r = decide(fn, budget_s=q.budget_s, per_path_timeout=q.per_path_timeout, collect_witnesses=q.witnesses,
+                   keep_going=q.keep_going, max_cex=q.max_cex)
+    except BaseException as e:  # noqa
+        if type(e).__name__ != "NotDeterministic":
+            raise
+        # hidden state across paths: explore again with freshly loaded modules per path
+        reloaded = True
+        fn = _with_fresh_modules(q.make("sym"))
+        r = decide(fn, budget_s=q.budget_s, per_path_timeout=q.per_path_timeout, collect_witnesses=q.witnesses,
+                   keep_going=q.keep_going, max_cex=q.max_cex)
+    r["reloaded_modules_per_path"] = reloaded
+    # the native phase starts from freshly loaded cutplace modules: no symbolic value that leaked into module or
+    # class level state during the exploration can reach it
+    import importlib
+    for name in RELOAD_ORDER:
+        if name in sys.modules:
+            importlib.reload(sys.modules[name])
     r["qid"] = q.qid
     r["family"] = q.family
     r["native_ok"] = 0
